@@ -5,22 +5,27 @@ import ESV.Comp.FrontW1
 namespace ESV.Comp
 open ESV ESV.Beh
 
-/-- the reserved interval `(lb, lb+vl]` of a statement lies in the interval of its routine -/
-def Rng (c : LCtx) (lb vl : Nat) : Prop := c.LB ≤ lb ∧ lb + vl ≤ c.HB
+/-- the label numbers reserved for a statement while visiting lie in the interval of its routine -/
+def ResOK (c : LCtx) (res : List Nat) : Prop := ∀ k ∈ res, c.LB < k ∧ k ≤ c.HB
 
-/-- what the piece `items`, collected while the state went from `s` to `s'`, satisfies.  `lb`, `vl`: the label numbers
+theorem ResOK.append {c : LCtx} {a b : List Nat} (ha : ResOK c a) (hb : ResOK c b) : ResOK c (a ++ b) := fun k hk => by
+  rcases List.mem_append.mp hk with h | h
+  · exact ha k h
+  · exact hb k h
+
+/-- what the piece `items`, collected while the state went from `s` to `s'`, satisfies.  `res`: the label numbers
 reserved for it while visiting; `defs`: the user labels defined by the statements it was collected from. -/
-structure W (c : LCtx) (lb vl : Nat) (defs : List String) (s : St) (items : List LItem) (s' : St) : Prop where
+structure W (c : LCtx) (res : List Nat) (defs : List String) (s : St) (items : List LItem) (s' : St) : Prop where
   ok : StOK c s'
   ext : Ext s s'
-  ig : IGood lb vl s.lbc s'.lbc (intIds items)
-  fresh : ∀ x ∈ intIds items, x ∉ namedIds s'
+  lab : LblOK res s.lbc s'.lbc (intIds items)
+  fresh : ∀ x ∈ intIds items, x ∉ namedIds s' ∧ x ≤ s'.lbc
   usr : ∀ i, (usrIds items).count i ≤ (defs.filterMap fun n => s'.named.lookup n).count i
   root : ∀ x ∈ items, rootOK x = true
   ctx : CtxP items
 
-def WM (c : LCtx) (lb vl : Nat) (defs : List String) (m : M (List LItem)) : Prop :=
-  ∀ s items s', StOK c s → m s = .ok (items, s') → W c lb vl defs s items s'
+def WM (c : LCtx) (res : List Nat) (defs : List String) (m : M (List LItem)) : Prop :=
+  ∀ s items s', StOK c s → m s = .ok (items, s') → W c res defs s items s'
 
 theorem count_filterMap_mono {f g : String → Option Nat} (h : ∀ n i, f n = some i → g n = some i) (i : Nat) :
     ∀ (d : List String), (d.filterMap f).count i ≤ (d.filterMap g).count i := by
@@ -38,24 +43,18 @@ theorem count_filterMap_mono {f g : String → Option Nat} (h : ∀ n i, f n = s
       rw [h n j hf]
       simp only [List.count_cons]; omega
 
-theorem W.append {c : LCtx} {lb vl lb1 v1 lb2 v2 : Nat} {d1 d2 : List String} {s s1 s2 : St} {x y : List LItem}
-    (hs : StOK c s) (hr : Rng c lb vl)
-    (h1 : W c lb1 v1 d1 s x s1) (h2 : W c lb2 v2 d2 s1 y s2)
-    (r1 : lb ≤ lb1 ∧ lb1 + v1 ≤ lb + vl) (r2 : lb ≤ lb2 ∧ lb2 + v2 ≤ lb + vl)
-    (dj : lb1 + v1 ≤ lb2 ∨ lb2 + v2 ≤ lb1) : W c lb vl (d1 ++ d2) s (x ++ y) s2 := by
-  have hb := hs.hb
+theorem W.append {c : LCtx} {r1 r2 : List Nat} {d1 d2 : List String} {s s1 s2 : St} {x y : List LItem}
+    (h1 : W c r1 d1 s x s1) (h2 : W c r2 d2 s1 y s2) : W c (r1 ++ r2) (d1 ++ d2) s (x ++ y) s2 := by
   have l1 := h1.ext.lbc
   have l2 := h2.ext.lbc
   refine ⟨h2.ok, h1.ext.trans h2.ext, ?_, ?_, ?_, ?_, h1.ctx.append h2.ctx⟩
   · rw [intIds_append]
-    exact IGood.append h1.ig h2.ig r1 r2 dj (by have := hr.2; omega) l1 l2
+    exact h1.lab.append h2.lab l1 l2
   · intro z hz
     rw [intIds_append, List.mem_append] at hz
     rcases hz with hz | hz
-    · refine fresh_ext h2.ext z (h1.fresh z hz) ?_
-      have := h1.ig.mem z hz
-      have := hr.2
-      omega
+    · obtain ⟨f1, f2⟩ := h1.fresh z hz
+      exact ⟨fresh_ext h2.ext z f1 f2, by omega⟩
     · exact h2.fresh z hz
   · intro i
     rw [usrIds_append, List.count_append, List.filterMap_append, List.count_append]
@@ -70,47 +69,43 @@ theorem W.append {c : LCtx} {lb vl lb1 v1 lb2 v2 : Nat} {d1 d2 : List String} {s
     · exact h2.root z hz
 
 /-- the same labels, roots and context structure in another arrangement -/
-theorem W.rearr {c : LCtx} {lb vl : Nat} {d : List String} {s s' : St} {x y : List LItem} (h : W c lb vl d s x s')
+theorem W.rearr {c : LCtx} {r : List Nat} {d : List String} {s s' : St} {x y : List LItem} (h : W c r d s x s')
     (hi : ∀ n, (intIds y).count n ≤ (intIds x).count n) (hu : ∀ n, (usrIds y).count n ≤ (usrIds x).count n)
-    (hroot : ∀ z ∈ y, rootOK z = true) (hc : CtxP y) : W c lb vl d s y s' :=
-  ⟨h.ok, h.ext, h.ig.of_count_le hi, fun z hz => h.fresh z (by
+    (hroot : ∀ z ∈ y, rootOK z = true) (hc : CtxP y) : W c r d s y s' :=
+  ⟨h.ok, h.ext, h.lab.of_count_le hi, fun z hz => h.fresh z (by
     have := List.count_pos_iff.mpr hz
     have := hi z
     exact List.count_pos_iff.mp (by omega)), fun i => Nat.le_trans (hu i) (h.usr i), hroot, hc⟩
 
-theorem W.widen {c : LCtx} {lb vl lb' vl' : Nat} {d : List String} {s s' : St} {x : List LItem} (h : W c lb' vl' d s x s')
-    (r : lb ≤ lb' ∧ lb' + vl' ≤ lb + vl) : W c lb vl d s x s' :=
-  ⟨h.ok, h.ext, h.ig.mono r (Nat.le_refl _) (Nat.le_refl _), h.fresh, h.usr, h.root, h.ctx⟩
-
-theorem W.defs {c : LCtx} {lb vl : Nat} {d d' : List String} {s s' : St} {x : List LItem} (h : W c lb vl d s x s')
+/-- the allotments in another order -/
+theorem W.allot {c : LCtx} {r r' : List Nat} {d d' : List String} {s s' : St} {x : List LItem} (h : W c r d s x s')
+    (hr : ∀ n, r.count n ≤ r'.count n)
     (hd : ∀ i, (d.filterMap fun n => s'.named.lookup n).count i ≤ (d'.filterMap fun n => s'.named.lookup n).count i) :
-    W c lb vl d' s x s' :=
-  ⟨h.ok, h.ext, h.ig, h.fresh, fun i => Nat.le_trans (h.usr i) (hd i), h.root, h.ctx⟩
+    W c r' d' s x s' :=
+  ⟨h.ok, h.ext, h.lab.res_le hr, h.fresh, fun i => Nat.le_trans (h.usr i) (hd i), h.root, h.ctx⟩
 
 /-- a piece without label definitions, collected without touching the label counter or table -/
-theorem W.plain {c : LCtx} (lb : Nat) {s s' : St} {x : List LItem} (hs : StOK c s) (hsame : SameL s s')
-    (hi : intIds x = []) (hu : usrIds x = []) (hroot : ∀ z ∈ x, rootOK z = true) (hc : CtxP x) : W c lb 0 [] s x s' :=
-  ⟨hsame.ok hs, hsame.ext, by rw [hi]; exact IGood.nil _ _ _ _, by rw [hi]; simp, by rw [hu]; simp, hroot, hc⟩
+theorem W.plain {c : LCtx} {s s' : St} {x : List LItem} (hs : StOK c s) (hsame : SameL s s')
+    (hi : intIds x = []) (hu : usrIds x = []) (hroot : ∀ z ∈ x, rootOK z = true) (hc : CtxP x) : W c [] [] s x s' :=
+  ⟨hsame.ok hs, hsame.ext, by rw [hi]; exact LblOK.nil _ _ _, by rw [hi]; simp, by rw [hu]; simp, hroot, hc⟩
 
-theorem W.nil {c : LCtx} (lb : Nat) {s : St} (hs : StOK c s) : W c lb 0 [] s [] s :=
-  W.plain lb hs (SameL.refl s) rfl rfl (by simp) CtxP.nil
+theorem W.nil {c : LCtx} {s : St} (hs : StOK c s) : W c [] [] s [] s :=
+  W.plain hs (SameL.refl s) rfl rfl (by simp) CtxP.nil
 
 /-- a freshly ticked internal label -/
-theorem W.tick {c : LCtx} (lb : Nat) {s : St} (hs : StOK c s) : W c lb 0 [] s [.label (s.lbc + 1) false] (s.tickedLbl 1) :=
-  ⟨tick_ok hs, tick_ext s, by simpa [St.tickedLbl] using IGood.tick lb 0 s.lbc, by
+theorem W.tick {c : LCtx} {s : St} (hs : StOK c s) : W c [] [] s [.label (s.lbc + 1) false] (s.tickedLbl 1) :=
+  ⟨tick_ok hs, tick_ext s, by simpa [St.tickedLbl] using LblOK.tick s.lbc, by
     intro x hx
     simp at hx; subst hx
-    exact tick_fresh hs, by simp, by simp [rootOK], (NoCtx.label _ _).ctxP⟩
+    exact ⟨tick_fresh hs, by simp [St.tickedLbl]⟩, by simp, by simp [rootOK], (NoCtx.label _ _).ctxP⟩
 
 /-- an internal label whose number was reserved while visiting -/
-theorem W.reserved {c : LCtx} {lb vl : Nat} (k : Nat) {s : St} (hs : StOK c s) (hr : Rng c lb vl) (h1 : lb < k) (h2 : k ≤ lb + vl) :
-    W c lb vl [] s [.label k false] s :=
-  ⟨hs, Ext.refl s, by simpa using IGood.reserved lb vl s.lbc s.lbc k h1 h2, by
+theorem W.res1 {c : LCtx} (k : Nat) {s : St} (hs : StOK c s) (hk : c.LB < k ∧ k ≤ c.HB) : W c [k] [] s [.label k false] s :=
+  ⟨hs, Ext.refl s, by simpa using LblOK.reserved k s.lbc s.lbc, by
     intro x hx
     simp at hx; subst hx
-    intro hm
+    refine ⟨fun hm => ?_, by have := hs.hb; omega⟩
     have := hs.out _ hm
-    have := hr.1; have := hr.2
     omega, by simp, by simp [rootOK], (NoCtx.label _ _).ctxP⟩
 
 /-! ### states -/
